@@ -55,7 +55,17 @@ def run(ctx):
     # the hand-off the rule relies on: expected_tokens=list(actions[self.state].keys())
     ytree = ctx.src.tree('sly/yacc.py')
     handoff = [n for n in ast.walk(ytree) if isinstance(n, ast.keyword) and n.arg == 'expected_tokens']
-    ctx.need(any(norm(k.value) == 'list(actions[self.state].keys())' for k in handoff),
+    def _handoff_ok(k):
+        v = k.value
+        if isinstance(v, ast.Name):
+            # a local holding the list: every assignment of it in the enclosing function must be that expression
+            fn_ = k
+            while fn_ is not None and not isinstance(fn_, ast.FunctionDef):
+                fn_ = getattr(fn_, '_parent', None)
+            defs = [n.value for n in ast.walk(fn_) if isinstance(n, ast.Assign) and any(isinstance(t, ast.Name) and t.id == v.id for t in n.targets)] if fn_ else []
+            return bool(defs) and all(norm(d) in ('list(actions[self.state].keys())', 'list(actions[self.state])') for d in defs)
+        return norm(v) in ('list(actions[self.state].keys())', 'list(actions[self.state])')
+    ctx.need(any(_handoff_ok(k) for k in handoff),
              'sly/yacc.py: Parser.parse no longer passes expected_tokens=list(actions[self.state].keys())')
 
     # (2) display strings lex back -----------------------------------------------------------------------
@@ -133,7 +143,13 @@ def run(ctx):
     # the synthesised token value is the display string; if a grammar action converts the text of that token type with a
     # partial function (int/float), the value must be in the token's language
     fn = sm.fn
-    synth = [n for n in ast.walk(fn) if isinstance(n, ast.Assign) and norm(n.targets[0]).endswith('.value')
+    # ... in make_suggestion itself or in a helper of the same file that it calls
+    called = {(n.func.attr if isinstance(n.func, ast.Attribute) else getattr(n.func, 'id', None)) for n in ast.walk(fn) if isinstance(n, ast.Call)}
+    mod_ = fn
+    while getattr(mod_, '_parent', None) is not None:
+        mod_ = mod_._parent
+    helpers_ = [h for h in ast.walk(mod_) if isinstance(h, ast.FunctionDef) and h.name in called and h is not fn]
+    synth = [n for f_ in [fn] + helpers_ for n in ast.walk(f_) if isinstance(n, ast.Assign) and norm(n.targets[0]).endswith('.value')
              and isinstance(n.targets[0], ast.Attribute)]
     ctx.need(len(synth) >= 1, 'make_suggestion: synthesised `token.value = ...` not found')
     conv = {}       # token -> converter
@@ -255,11 +271,31 @@ def check_verified(ctx, sm):
     for c in qv:
         arg = c.args[0] if c.args else None
         ok = False
-        if isinstance(arg, ast.Name):
+        if arg is not None:
+            # the argument, with local names expanded through their assignments (two levels), is built from this call's token list and a candidate
+            # token made inside the loop
+            def expand(e, depth=0):
+                texts = [norm(e)]
+                if depth < 3:
+                    for x in ast.walk(e):
+                        if isinstance(x, ast.Name):
+                            for n in ast.walk(fn):
+                                if isinstance(n, ast.Assign) and any(isinstance(t, ast.Name) and t.id == x.id for t in n.targets) and n.lineno <= c.lineno:
+                                    texts += expand(n.value, depth + 1)
+                return texts
+            texts = expand(arg)
+            mod2 = fn
+            while getattr(mod2, '_parent', None) is not None:
+                mod2 = mod2._parent
+            makers = {'Token'} | {h.name for h in ast.walk(mod2) if isinstance(h, ast.FunctionDef) and h is not fn
+                                  and any(isinstance(x, ast.Call) and (dotted(x.func) or '').split('.')[-1] == 'Token' for x in ast.walk(h))}
+            made = {t.id for n in ast.walk(fn) if isinstance(n, ast.Assign) and isinstance(n.value, ast.Call) for t in n.targets if isinstance(t, ast.Name)
+                    and ((dotted(n.value.func) or '').split('.')[-1] in makers or (isinstance(n.value.func, ast.Attribute) and n.value.func.attr in makers))}
+            names_in_arg = {x.id for t_ in [arg] for x in ast.walk(t_) if isinstance(x, ast.Name)}
             for n in ast.walk(fn):
-                if isinstance(n, ast.Assign) and norm(n.targets[0]) == arg.id and n.lineno < c.lineno and 'self.tokens' in norm(n.value) \
-                        and 'token' in norm(n.value):
-                    ok = True
+                if isinstance(n, ast.Assign) and any(isinstance(t, ast.Name) and t.id in names_in_arg for t in n.targets):
+                    names_in_arg |= {x.id for x in ast.walk(n.value) if isinstance(x, ast.Name)}
+            ok = any('self.tokens' in t for t in texts) and bool(made & names_in_arg)
         ctx.ob('C19.suggestions-verified', f'query_is_valid({norm(arg) if arg is not None else ""})@{c.lineno - fn.lineno}', ok,
                'the re-parse that verifies a suggestion is not run on this call\'s token list with the candidate inserted',
                file=INIT, line=c.lineno)
